@@ -1,6 +1,7 @@
 package harness
 
 import (
+	"sync/atomic"
 	"encoding/json"
 	"fmt"
 	"sort"
@@ -132,7 +133,7 @@ var probeAttrs = []attrKind{
 
 func (c15) Gen(rt *rapid.T, thorough bool) any {
 	s := &C15Scn{Knobs: genKnobs(rt), Style: genStyle(rt)}
-	s.Mode = rapid.SampledFrom([]string{"probe", "probe", "probe", "types", "mutate", "mutate", "iofail", "many"}).Draw(rt, "mode")
+	s.Mode = rapid.SampledFrom([]string{"probe", "probe", "probe", "types", "mutate", "mutate", "iofail", "many", "late"}).Draw(rt, "mode")
 	switch s.Mode {
 	case "many":
 		// an indexed element list longer than anything a test writes by hand
@@ -229,6 +230,8 @@ func (c c15) Run(x *Exec, scn any) {
 		c.runMutate(x, s)
 	case "many":
 		c.runMany(x, s)
+	case "late":
+		c.runLate(x, s)
 	case "iofail":
 		errno := map[string]syscall.Errno{"ENOENT": syscall.ENOENT, "EACCES": syscall.EACCES, "EMFILE": syscall.EMFILE, "ENOSPC": syscall.ENOSPC}[s.Fault]
 		x.FS.AddFault(&simos.FaultRule{Op: "open", Prefix: "/logs", Err: errno, Skip: int(s.Knobs.MapSeed % 4), Count: -1})
@@ -535,6 +538,44 @@ func (c c15) runTypes(x *Exec, s *C15Scn, cfg map[string]string, mustSucceed boo
 	judgeDied(x, "C15")
 	if n := x.FS.OpenCount(); n != 0 {
 		o.violate("descriptor-after-destroy", "C15/descriptor-open-after-destroy", "%d descriptors open after Destroy", n)
+	}
+}
+
+var lateTypes atomic.Int64
+
+// runLate: a plugin type registered after the library has already resolved types once (a first
+// configuration was live and destroyed) is a registered type like any other.
+func (c c15) runLate(x *Exec, s *C15Scn) {
+	o := x.Out
+	first := (&SysSpec{Style: s.Style, Props: map[string]string{}, Apps: []AppSpec{{Name: "a", Type: "Discard"}},
+		Logs: []LogSpec{{Name: "root", Type: "Logger", Refs: []RefSpec{{Ref: "a"}}}}}).Render()
+	if err, ok := c.refresh(x, first); !ok || err != nil {
+		if ok {
+			o.violate("valid-rejected", "C15/valid-attributes-rejected", "a minimal configuration was rejected: %v", err)
+		}
+		return
+	}
+	x.do("destroy", func() { call(log.Destroy) })
+	name := fmt.Sprintf("LateRec%d", lateTypes.Add(1))
+	if pv, _ := call(func() { log.RegisterPlugin[RecAppender](name, log.PluginTypeAppender) }); pv != nil {
+		o.violate("register-panic", "C15/register-plugin-after-destroy-panicked", "RegisterPlugin after Destroy panicked: %v", pv)
+		return
+	}
+	second := (&SysSpec{Style: s.Style, Props: map[string]string{}, Apps: []AppSpec{{Name: "late", Type: name}},
+		Logs: []LogSpec{{Name: "root", Type: "Logger", Refs: []RefSpec{{Ref: "late"}}}}}).Render()
+	err, ok := c.refresh(x, second)
+	if !ok {
+		return
+	}
+	o.Reached = true
+	defer x.do("destroy", func() { call(log.Destroy) })
+	if err != nil {
+		o.violate("valid-rejected", "C15/registered-type-cannot-be-instantiated", "appender type %q was registered (after a first configuration had been live) but Refresh says: %v", name, err)
+		return
+	}
+	x.do("use", func() { emit(0, 0, log.TagAppDef, "_app_def", EvOp{Kind: 2, Size: 3}, log.ErrorLevel) })
+	if n := len(getRec("late").snapshot()); n != 1 {
+		o.violate("element-lost", "C15/registered-type-cannot-be-instantiated", "the appender of the late-registered type received the event %d times", n)
 	}
 }
 
